@@ -138,6 +138,10 @@ def async_client(helpers_whole):
         handed = re.findall(r"\(\s*&mut\s+\*?\s*writer\b|,\s*&mut\s+\*?\s*writer\b", nb)
         if any(u not in ("lock", "shutdown") for u in uses) or handed:
             outside += 1
+    # the abandoned-frame marker may only be lowered by the writer that raised it
+    for name, b in fns_in(src):
+        if name not in ("write_request", "connect") and name not in helper_calls and re.search(r"mid_frame\s*=\s*false", b):
+            outside += 1
     if helper_calls:
         # the write was moved into a helper that is handed the locked writer: who else calls it?
         for h in set(helper_calls):
